@@ -228,9 +228,20 @@ def _key(toks):
     return out
 
 
+RANGE_FORM = re.compile(r"([0-9]+)\.\.([0-9]*)")
+
+
 def relations(s, toks, exc, T, ws_choices):
     """The property's own relations on the implementation's result. -> list of (signature, text)"""
     bad = []
+    m = RANGE_FORM.fullmatch(s)
+    if m:          # "a.." / "a..b": number, range(, number)
+        a, b = m.group(1), m.group(2)
+        exp = [("number", 0, len(a), int(a)), ("..", len(a), len(a) + 2, None)] + ([("number", len(a) + 2, len(s), int(b))] if b else [])
+        got = None if toks is None else [(t.tag, t.begin_index_incl, t.end_index_excl, t._meta.get("value")) for t in toks]
+        if got != exp or any(type(g[3]) is not type(e[3]) for g, e in zip(got or [], exp)):
+            bad.append((dict(kind="range-lex"), "%r must lex as number, range%s; got %r" % (s, ", number" if b else "", got if got is not None else type(exc).__name__)))
+            return bad
     if exc is not None:
         if isinstance(exc, T.UnclosedStringError):
             i = exc.index
@@ -247,6 +258,15 @@ def relations(s, toks, exc, T, ws_choices):
             if not (0 <= i < len(s)) or s[i].isspace():
                 bad.append((dict(kind="error-position", what=type(exc).__name__),
                             "%s index %r is outside the input or on whitespace" % (type(exc).__name__, i)))
+            elif isinstance(exc, T.UnknownTokenError):
+                c = s[i]
+                nxt = s[i + 1] if i + 1 < len(s) else ""
+                lexable = (c in "\"#" or c.isnumeric() or (c == "." and nxt != "" and nxt.isnumeric()) or c in IDENT_START
+                           or any(s.startswith(t, i) and not (t.isalpha() and i + len(t) < len(s) and s[i + len(t)].isalpha())
+                                  for t in T.CONST_TOKENS))
+                if lexable:
+                    bad.append((dict(kind="unknown-token-at-lexable-position"),
+                                "UnknownTokenError at %d although a token can start there (%r)" % (i, s[i:i + 8])))
             elif isinstance(exc, T.BadNumberError):
                 legit, form = bad_number_legit(s, i)
                 if not legit:
@@ -408,6 +428,8 @@ def rand_lexeme(rng, consts):
     D = "0123456789"
     def digs(a, b, alpha=D):
         return "".join(rng.choice(alpha) for _ in range(rng.randint(a, b)))
+    if k < 0.03:
+        return digs(1, rng.choice([1, 2, 9])) + ".." + digs(0, rng.choice([1, 2, 9]))
     if k < 0.10:
         return digs(1, rng.choice([1, 3, 25]))
     if k < 0.20:
@@ -681,6 +703,7 @@ def run(ctx):
                 if a + 1 < len(parts):
                     cs.append(parts[a] + parts[a + 1])
                     cs.append(parts[a] + " " + parts[a + 1])
+            cs += [s[:j] for j in range(1, min(len(s), 64) + 1)]
             for line in (m, il):          # prefixes that start where either side reports an error
                 f = line.split(" ")
                 if f[0] == "E" and f[-1].isdigit():
